@@ -252,6 +252,27 @@ int verif_fflush(FILE *f) { (void) f; return 0; }
 size_t verif_fwrite(const void *p, size_t sz, size_t n, FILE *f) { (void) p; (void) f; out_data_bytes += (unsigned) (sz * n); return n; }
 
 /* lha_arch_vasprintf: same interpreter, rendering into a static buffer that the real safe_output() rewrites */
+/* sprintf / snprintf into a caller buffer (not used by the pinned tool sources; modelled so that a change that formats
+ * archive data into a buffer and prints the buffer later is still decided instead of leaving the harness incomplete) */
+int verif_sprintf(char *dst, const char *fmt, ...)
+{
+	va_list ap; OutSink k; int r;
+	k.buf = dst; k.n = 0; k.cap = VAS_MAX;
+	va_start(ap, fmt); r = out_vformat(&k, fmt, ap); va_end(ap);
+	dst[k.n] = '\0';
+	(void) r;
+	return (int) k.n;
+}
+int verif_snprintf(char *dst, size_t cap, const char *fmt, ...)
+{
+	va_list ap; OutSink k; int r;
+	k.buf = dst; k.n = 0; k.cap = cap < VAS_MAX ? (unsigned) cap : VAS_MAX;
+	va_start(ap, fmt); r = out_vformat(&k, fmt, ap); va_end(ap);
+	if (cap > 0) dst[k.n] = '\0';
+	(void) r;
+	return (int) k.n;
+}
+
 static char vas_buf[VAS_MAX];
 static unsigned vas_live, vas_calls;
 int lha_arch_vasprintf(char **result, char *fmt, va_list args)
